@@ -13,12 +13,31 @@ SPECS = {}
 DNSMSG_COMMON = {"harness/dnsmsg/zz_verif_common_test.go": "internal/dnsmsg/zz_verif_common_test.go"}
 
 TRANSPORT_COMMON = {"harness/transport/zz_verif_common_test.go": "internal/upstream/transport/zz_verif_common_test.go"}
-E3ENGINES = ("choice", "report", "refdns", "env")
+E3ENGINES = ("choice", "report", "refdns", "env", "sched")
 
 UPSTREAM_COMMON = {"harness/upstream/zz_verif_common_test.go": "internal/upstream/zz_verif_common_test.go"}
 
 ROUTER_COMMON = {"harness/router/zz_verif_common_test.go": "app/router/zz_verif_common_test.go",
                  "harness/router/zz_verif_seams_test.go": "app/router/zz_verif_seams_test.go"}
+
+def rewrite_imports(src_rel, mapping):
+    """Return a generate() callback: copies <repo>/<src_rel> from the current working tree with import paths rewritten (E2 shims)."""
+    def gen(scratch, repo):
+        import os, re
+        txt = open(os.path.join(repo, src_rel)).read()
+        for old, (alias, new) in mapping.items():
+            pat = re.compile(r'^(\s*)(?:\w+\s+)?"%s"\s*$' % re.escape(old), re.M)
+            if not pat.search(txt):
+                raise SystemExit("HARNESS-ERROR: import %s not found in %s" % (old, src_rel))
+            txt = pat.sub(lambda m: '%s%s "github.com/IrineSistiana/mosproxy/internal/zzverif/%s"' % (m.group(1), alias, new), txt)
+        out = os.path.join(scratch, "rewritten_" + src_rel.replace("/", "_"))
+        open(out, "w").write(txt)
+        return {src_rel: out}
+    return gen
+
+
+E2ENGINES = ("choice", "report", "refdns", "env", "sched", "vsync", "vxsync", "votter")
+
 
 def router_part(name, run, files, **kw):
     d = dict(name=name, pkg="app/router", run=run, go="go1.26", env=E3ENV, gomaxprocs=1, engines=E3ENGINES,
@@ -250,7 +269,11 @@ SPECS["C07"] = dict(
     rule="see evidence rule written by the harness",
     assumptions=["ample cache capacity for the hit guarantee"],
     parts=[router_part("cache", "TestVerifC07", ["zz_verif_c07_test.go", "zz_verif_c08_test.go", "zz_verif_c03_test.go"],
-                       params={"quick": {"MAXREC": 2, "MAXRANGES": 2}, "thorough": {"MAXREC": 3, "MAXRANGES": 3}})],
+                       params={"quick": {"MAXREC": 2, "MAXRANGES": 2}, "thorough": {"MAXREC": 3, "MAXRANGES": 3}}),
+           dict(name="mem-e2", pkg="internal/cache", run="TestVerifC07Mem", go="go", engines=E2ENGINES,
+                files={"harness/cache/zz_verif_c07mem_test.go": "internal/cache/zz_verif_c07mem_test.go"},
+                generate=rewrite_imports("internal/cache/mem.go", {"sync": ("sync", "vsync"), "github.com/maypok86/otter": ("otter", "votter")}),
+                params={"quick": {"PREEMPTIONS": 2}, "thorough": {"PREEMPTIONS": 4}}, budget={"quick": 90, "thorough": 900})],
 )
 
 SPECS["C19"] = dict(
@@ -299,6 +322,10 @@ SPECS["C15"] = dict(
                 params={"quick": {"MAXLEN": 3}, "thorough": {"MAXLEN": 4}}, budget={"quick": 90, "thorough": 600}),
            router_part("seams", "TestVerifC15Seams", ["zz_verif_c15_test.go", "zz_verif_c03_test.go"],
                        params={"quick": {"DEPTH": 4}, "thorough": {"DEPTH": 6}}),
+           dict(name="concurrent-e2", pkg="internal/limiter", run="TestVerifC15E2", go="go", engines=E2ENGINES,
+                files={"harness/limiter/zz_verif_c15e2_test.go": "internal/limiter/zz_verif_c15e2_test.go"},
+                generate=rewrite_imports("internal/limiter/client_limiter.go", {"sync": ("sync", "vsync"), "github.com/puzpuzpuz/xsync/v3": ("xsync", "vxsync")}),
+                params={"quick": {"PREEMPTIONS": 3}, "thorough": {"PREEMPTIONS": 6}}, budget={"quick": 60, "thorough": 600}),
            router_part("quic", "TestVerifC15Quic", ["zz_verif_c15quic_test.go", "zz_verif_c03_test.go"], shards=1)],
 )
 
